@@ -7,7 +7,7 @@ snap=/tmp/vrun; rm -rf $snap; mkdir -p $snap
 rsync -a --exclude .git --exclude replays --exclude evidence /verif/ $snap/
 if [ -n "$(git -C /repo status --porcelain)" ]; then echo "REPO-NOT-CLEAN"; exit 3; fi
 patch=""
-case "$mode" in clean) ;; seed) patch=/tmp/wt2/$id/MUTATION.diff;; *) patch="$mode";; esac
+case "$mode" in clean) ;; seed) patch=${WTROOT:-/tmp/wt2}/$id/MUTATION.diff;; *) patch="$mode";; esac
 if [ -n "$patch" ]; then git -C /repo apply "$patch" || { echo PATCH-DOES-NOT-APPLY; exit 3; }; fi
 $snap/check "$id" "$tier" > /tmp/st_${id}_$(basename "$mode" .diff).out 2>&1; rc=$?
 git -C /repo checkout -- . ; git -C /repo clean -fdq
